@@ -1178,7 +1178,15 @@ static const std::vector<Row> &table() {
 static bool make_case(const Row &row, const Doc &host, Env &E, CaseFile &c) {
     Work W; W.h = host; fix_host(W.h, E.dialect);
     Plan P; P.cls = row.name; P.dialect = E.dialect;
+    bool want_nl = *g::chance(70);   // the input may also end right after its last token
     if (!row.plant(W, E, P)) return false;
+    if (P.final_nl) P.final_nl = want_nl;
+    if (!P.final_nl && P.cls == "overlength-line" && P.lo_tok == (int) P.toks.size() - 1) {
+        // F-LASTLINE-LEN (known): an over-long last line that is not terminated is never measured.  Excluded by construction: terminate it.
+        count_excluded("F-LASTLINE-LEN");
+        if (gen_known()) P.pos.push_back("unterminated-last-line"); else P.final_nl = true;
+    }
+    if (!P.final_nl && std::find(P.pos.begin(), P.pos.end(), "before-eof") != P.pos.end()) P.pos.push_back("no-final-eol");
     uint32_t sepseed = mix(E.seed, 4242);
     Built pb = build(P.toks, sepseed, P.final_nl), cb = build(P.control_toks, sepseed, true);
     int n = (int) P.toks.size();
@@ -1232,6 +1240,7 @@ int main(int argc, char **argv) {
         const std::string cls = c.get("cls"), pos = " " + c.get("pos");
         if (cls == "overlength-line" && pos.find(" line-has-key ") != std::string::npos) return std::string("F-KEYCOL");
         if (cls == "null-key" && pos.find(" value-attached ") != std::string::npos) return std::string("F-NULLKEY-SPACE");
+        if (cls == "overlength-line" && pos.find(" unterminated-last-line ") != std::string::npos) return std::string("F-LASTLINE-LEN");
         return std::string();
     };
     return engine_main(argc, argv, e);
